@@ -54,11 +54,11 @@ func runC10(res *vh.Result) {
 		"trigger of Update URR results is not asserted; REEMR may map to nothing or EMRRE",
 		"report identity = start time (10 s apart per serial) or total volume; both derive from the kernel's report serial",
 	}
-	ncases := vh.Tiered(1200, 20000)
+	ncases := vh.Tiered(1200, 80000)
 	// in addition, PFCP-level histories (model data plane, injected reports, take-over of a session by a new node id,
 	// re-association, CP-SEIDs colliding across peers): every Session Report Request must arrive at the SMF that owns
 	// the session at that moment, addressed with the peer's SEID
-	nhist := vh.Tiered(600, 15000)
+	nhist := vh.Tiered(600, 40000)
 	histProfile := vh.GenProfile{MinOps: 10, MaxOps: 30, MaxNodes: 3, MaxSess: 6, Negative: 1, Reports: 12, RuleChurn: 4, Reassoc: 2, Takeover: true, NoDupCreate: true}
 	rn := &vh.Runner{}
 	res.Cases(ncases+nhist, func(ci int, rng *vh.Rng) {
